@@ -23,5 +23,6 @@ GROUP = dict(
         dict(id='C12.resize.value', enforce='Vec_resize__long', loops=True, backend='cadical', covers=['a1 > 5 && g_k < a1 && g_k > 2']),
         dict(id='C12.insert.n', enforce='Vec_insert__long', loops=True, backend='cadical', timeout=600, covers=['a2 > 3']),
         dict(id='C12.swap', enforce='Vec_swap', backend='cadical'),
+        dict(id='C12.assign.n', enforce='Vec_assign__u64', loops=True, backend='cadical', timeout=600, covers=['a1 > 5 && g_k < a1 && g_k > 2', 'a1 > g_cap0']),
     ],
 )
